@@ -213,3 +213,14 @@ def counter_oracle(ops, impl):
                 return "dec did not undo the last inc: expected slot %s and state %s, got %s" % (slot, before, v)
         state = (cnt, revd, hb)
     return None
+
+
+def compare_resize(inp, impl, model):
+    """C17 lines are judged by the harness itself against a std::set reference (single-threaded, exact): an `X <class>` token
+    in the output is the verdict."""
+    if "X" in impl:
+        cls = impl[impl.index("X") + 1] if impl.index("X") + 1 < len(impl) else "?"
+        import re
+        kind = re.sub(r"-after-op-\d+|key-\d+-|at-op-\d+|-\d+", "", cls).strip("-") or cls
+        return "@%s: %s: %s" % (kind, inp.split()[0], cls)
+    return None
